@@ -758,6 +758,7 @@ impl<'a> Gen<'a> {
     /// Layout variants of every sample of tests/samples/invalid (one sample per diagnostic of the catalogue): the same
     /// text without its final line break (diagnostics at the very END of the input), behind a line of more than 300
     /// columns that holds multi-byte characters, as ONE line behind multi-byte text on the same line (every diagnostic
+    /// on the first line ...), with every token on a line of its own (no line is expected, only the rules of Diagnostics.tla; every diagnostic
     /// on the first line, at a column beyond 300 for the longer samples), as the second and as the third module of a set,
     /// and twice in one file (the second copy with every name renamed: two instances of every diagnostic).
     /// `variant` names the base case and the transformation; the expected places are derived from the diagnostics of
@@ -802,6 +803,9 @@ impl<'a> Gen<'a> {
                 let joined: Vec<&str> = code.iter().map(|t| &text[t.start..t.end]).collect();
                 let one = format!("fn mb_() {{ var s = \"\u{e9}\u{1f35d}\u{4e2d}\"; }} {}\n", joined.join(" "));
                 add("oneline", vec![(rel.clone(), one)], json!({"line": 1, "mod": 1}));
+                // 3'. every token on a line of its own: whatever a diagnostic covers that is longer than one token now
+                // starts and ends on different lines (twelfth round, C13k: a location built from its LAST token)
+                add("toklines", vec![(rel.clone(), format!("{}\n", joined.join("\n")))], json!({"mod": 1}));
             }
             if !has_imports {
                 // 4. as the second / third module of a set (the earlier modules use a builtin: per-module generator state)
